@@ -55,7 +55,8 @@ Scalars ==
     VStr(<<65>>), VStr(<<97, 97>>), VStr(<<39>>), VStr(<<49>>), VStr(<<92>>),
     VStr(<<10>>), VStr(<<92, 110>>), VStr(<<9, 97>>),
     VDate(D1), VDate(D2), VDate(D3),
-    VPat(<<97>>), VPat(<<97, 33>>), VPat(<<65>>) }
+    VPat(<<97>>), VPat(<<97, 33>>), VPat(<<65>>),
+    VRef(1), VRef(2), VRef(3) }
 
 \* element pool of the depth-1 containers
 P1 == IF Tier = 1
@@ -237,7 +238,7 @@ RECURSIVE Same(_, _)
 Same(x, y) ==
   /\ x.k = y.k
   /\ CASE IsNum(x) -> x.n = y.n /\ x.s = y.s
-       [] x.k \in {"null", "bool", "str", "date", "pat"} -> x.n = y.n /\ x.s = y.s
+       [] x.k \in {"null", "bool", "str", "date", "pat", "ref"} -> x.n = y.n /\ x.s = y.s
        [] x.k = "list" -> /\ Len(x.items) = Len(y.items)
                           /\ \A i \in DOMAIN x.items : Same(x.items[i], y.items[i])
        [] x.k = "set" -> /\ Len(x.items) = Len(y.items)
